@@ -12,6 +12,7 @@
 #include <iostream>
 #include <map>
 #include <memory>
+#include <signal.h>
 #include <sstream>
 #include <string>
 #include <sys/mman.h>
@@ -716,9 +717,20 @@ main (int argc, char **argv)
   cur_voc = get_voc (argc > 1 ? argv[1] : "core");
   bool track = getenv ("ZWDRV_TRACK_ALLOC") != nullptr;
 
+  // Per-command watchdog (CPU seconds): a diverging evaluation must not
+  // eat the machine.  The client attributes the death to the command.
+  int cmd_timeout = getenv ("ZWDRV_CMD_TIMEOUT")
+    ? atoi (getenv ("ZWDRV_CMD_TIMEOUT")) : 10;
+  signal (SIGALRM, [] (int) {
+      static char const msg[] = "ZWDRV watchdog: command exceeded its time limit\n";
+      if (write (2, msg, sizeof msg - 1) < 0) {}
+      _exit (124);
+    });
+
   std::string line;
   while (std::getline (std::cin, line))
     {
+      alarm (cmd_timeout);
       std::vector <std::string> toks;
       std::stringstream ss (line);
       std::string t;
